@@ -57,6 +57,13 @@ def main():
         checks = sys.argv[sys.argv.index("--checks") + 1].split(",")
     rec = dict(meta)
     rec["evaluated_at"] = time.ctime()
+    recheck = "--recheck" in sys.argv and meta.get("confirmed")
+    if not recheck:
+        confirm(src, rec)
+    run_checks(src, sid, rec, checks)
+
+
+def confirm(src, rec):
     ensure_wt()
     ok_b, ok_t, log = build_and_test()
     rc0, d0 = run_demo(src)
@@ -70,8 +77,11 @@ def main():
     rec["patched"] = dict(builds=ok_b, tests_pass=ok_t, demo_rc=rc1, demo_tail=d1[-600:])
     sh(["git", "checkout", "--", "."], cwd=WT)
     rec["confirmed"] = bool(rec["baseline"]["tests_pass"] and rc0 == 0 and rec["patched"]["tests_pass"] and rc1 != 0 and rec["patch_applies"])
+
+
+def run_checks(src, sid, rec, checks):
     # run my checks against it
-    results = {}
+    results = dict(rec.get("checks_run", {}))
     st = subprocess.run(["git", "-C", REPO, "status", "--porcelain", "--untracked-files=no"], capture_output=True, text=True).stdout.strip()
     assert st == "", "/repo has local modifications: " + st
     rc, out = sh(["git", "-C", REPO, "apply", os.path.join(src, "patch.diff")])
@@ -88,11 +98,12 @@ def main():
     dst = os.path.join(VERIF, "seeded", sid)
     os.makedirs(dst, exist_ok=True)
     for f in os.listdir(src):
-        if os.path.isfile(os.path.join(src, f)) and os.path.getsize(os.path.join(src, f)) < 200000:
+        if os.path.abspath(src) != os.path.abspath(dst) and os.path.isfile(os.path.join(src, f)) and os.path.getsize(os.path.join(src, f)) < 200000:
             shutil.copy(os.path.join(src, f), os.path.join(dst, f))
     json.dump(rec, open(os.path.join(dst, "meta.json"), "w"), indent=1)
     print(json.dumps(dict(id=sid, confirmed=rec["confirmed"], baseline=rec["baseline"]["demo_rc"], patched=rec["patched"]["demo_rc"],
                           tests=rec["patched"]["tests_pass"], detected={c: r["detected"] for c, r in results.items()}), indent=1))
+    results = {c: r for c, r in results.items() if c in checks}
     for c, r in results.items():
         for l in r["lines"]:
             print("   ", c, l[:300])
